@@ -243,3 +243,15 @@ func hexDecode(s string) ([]byte, error) {
 	}
 	return hex.DecodeString(s)
 }
+
+// runLimited runs cmd with an address-space limit (bytes) and returns its combined output.
+func runLimited(cmd *exec.Cmd, limit int64) ([]byte, error) {
+	// apply the limit through the shell's ulimit so that a runaway allocation cannot take the harness down
+	args := append([]string{cmd.Path}, cmd.Args[1:]...)
+	for i, a := range args {
+		args[i] = "'" + strings.ReplaceAll(a, "'", `'\''`) + "'"
+	}
+	sh := exec.Command("/bin/sh", "-c", fmt.Sprintf("ulimit -v %d; exec %s", limit/1024, strings.Join(args, " ")))
+	sh.Env = cmd.Env
+	return sh.CombinedOutput()
+}
